@@ -283,3 +283,40 @@ def run(ctx):
             ctx.check('C20.R2', 'to_print.size()' in dstr(e.get('args')), pon.name, 'PrintOnNewLine:length', pon.where(e),
                       'text is passed on with its full size()')
     ctx.floor('C20.R2', 16)
+
+    # ---- O2: the line printer delivers ------------------------------------------------------------------
+    R('C20.O2', 'O', 'LinePrinter::Print and PrintOrBuffer never drop what they are given: every path through them either '
+      'writes the text to stdout or keeps it in the buffer that is flushed on unlock; stdout is line buffered')
+    OUT = ('printf', 'fwrite', 'fputs', 'puts', 'WriteConsoleOutput', 'write')
+    for name, param, keep in (('LinePrinter::Print', 'to_print', 'LinePrinter::line_buffer_'),
+                              ('LinePrinter::PrintOrBuffer', 'data', 'LinePrinter::output_buffer_')):
+        f = prog.fn(name)
+
+        def delivers(x, param=param, keep=keep):
+            if x.get('k') == 'call' and x.get('name') in OUT and mentions_var(x.get('args'), param):
+                return True
+            if x.get('k') == 'call' and mentions_field(x.get('recv'), keep) and mentions_var(x.get('args'), param) and \
+                    (x.get('op') in ('=', '+=') or lastname(x.get('name')) in ('append', 'assign', 'operator=', 'operator+=', 'push_back', 'insert')):
+                return True
+            if x.get('k') == 'asg' and mentions_field(x.get('l'), keep) and mentions_var(x.get('r'), param):
+                return True
+            return False
+        r = f.find_path(None, lambda x: x['k'] in ('ret', 'exit'), from_succ=f.entry, is_blocker=delivers)
+        ctx.check('C20.O2', r is None, f.name, 'printer:drops-text', f.where(r[1]) if r and r[1].get('line') else f.loc,
+                  '%s writes `%s` or keeps it in %s on every path' % (name, param, keep.split('::')[1]),
+                  witness=None if r is None else {'blocks': r[0]})
+    # stdout is line buffered for the whole run: command output written with fwrite() (no flush) reaches a pipe or file
+    # line by line, in order with the status lines
+    sv = [(f, e) for f, e in calls_to(prog, 'setvbuf') if mentions_var(e['args'][0], 'stdout')]
+    ctx.check('C20.O2', len(sv) >= 1, 'real_main', 'stdout:setvbuf-absent', 'src/ninja.cc', 'stdout buffering is set explicitly')
+    for f, e in sv:
+        m = strip(e['args'][2])
+        ctx.check('C20.O2', const_value(m) == 1 or (isinstance(m, dict) and m.get('k') in ('int', 'enum', 'macro') and dstr(m) in ('1', '_IOLBF')),
+                  f.name, 'stdout:not-line-buffered', f.where(e), 'setvbuf(stdout, ..., _IOLBF, ...): mode is %s' % dstr(m)[:40])
+        ctx.check('C20.O2', f.name == 'real_main' and f.dominates_ev(e, next(iter(f.calls('ReadFlags')), e)), f.name, 'stdout:setvbuf-late',
+                  f.where(e), 'the mode is set at the start of real_main, unconditionally')
+        r = f.find_path(None, lambda x: x['k'] == 'call' and x.get('name') in ('NinjaMain::RunBuild', 'ReadFlags'), from_succ=f.entry,
+                        is_blocker=lambda x, e=e: x is e)
+        ctx.check('C20.O2', r is None, f.name, 'stdout:setvbuf-conditional', f.where(e), 'every path to the flag parser / the build passes the setvbuf')
+    ctx.floor('C20.O2', 5)
+
